@@ -54,6 +54,10 @@ class Built:
         self.e.owners = set(prog["owned"])
         self.prog = prog
         self.trees = []
+        self.objs = []                             # the object (or int) assigned by every statement
+        self.cuts = []                             # code length after every statement
+        self.flags = []                            # per statement: surface-level observations (see `expr`)
+        self._flags = set()
 
     def layout(self):
         """name -> (base register, offset, fmt) as the real descriptors decided"""
@@ -79,17 +83,24 @@ class Built:
             return abs(self.expr(j[1]))
         if k == "m":
             return getattr(e, "m" + j[1])[self.expr(j[2])]
-        return BINOPS[k](self.expr(j[1]), self.expr(j[2]))
+        a, b = self.expr(j[1]), self.expr(j[2])
+        if k == "-" and isinstance(a, self.E.Sum) and isinstance(b, self.E.Expression):
+            self._flags.add("sum-minus")           # Sum.__sub__ with an expression falls back to __add__
+        return BINOPS[k](a, b)
 
     def stmt(self, s):
         assert s[0] == "set"
+        self._flags = set()
         val = self.expr(s[2])
         self.trees.append(tree(self.E, val))
+        self.objs.append(val)
+        self.flags.append(self._flags)
         d = s[1]
         if d[0] == "v":
             setattr(self.e, d[1], val)
         else:
             getattr(self.e, d[0])[d[1]] = val
+        self.cuts.append(len(self.e.opcodes) - self.n0)
 
     def run(self):
         for s in self.prog["stmts"]:
@@ -523,4 +534,44 @@ def build_desc(rng, desc, stage):
         if regs:
             dest = [dest[0], rng.choice(regs)[1]]
     prog["stmts"] = [["set", dest, e]]
+    return prog
+
+
+def gen_special(rng):
+    """targeted shapes: Sum objects combined with ints and expressions (Sum.__add__/__sub__), computed addresses,
+    destination aliasing, register pressure"""
+    prog = base_prog(rng, 3, kinds=rng.choice(["l", "lg"]))
+    regs = [k for k in prog["owned"] if k < 10 and k != 7] or [1]
+    r = lambda: ["r", rng.choice(regs)]
+    any_leaf = lambda: pick_leaf(rng, prog, rng.choice(LEAF_KINDS))
+    c = lambda: ["c", rng.choice([0, 1, -1, 8, -8, 2**31, -2**31 - 1, 2**40])]
+    k = rng.randrange(9)
+    if k == 0:
+        e = [rng.choice("+-"), [rng.choice("+-"), r(), c()], c()]              # Sum (+|-) int: returns None
+    elif k == 1:
+        e = [rng.choice("+-"), [rng.choice("+-"), r(), c()], any_leaf()]       # Sum - expr: falls back to +
+    elif k == 2:
+        e = ["+", ["*", any_leaf(), any_leaf()], [rng.choice("+-"), r(), c()]]  # Binary + Sum: Sum.__radd__ first
+    elif k == 3:
+        e = [rng.choice(["+", "-", "*", "|"]), c(), [rng.choice("+-"), r(), c()]]  # int (op) Sum
+    elif k == 4:
+        a = rng.choice([r(), ["+", r(), ["c", rng.choice([0, 4, -8, 2**31])]], ["+", r(), r()], ["w", rng.choice(regs)],
+                        ["*", r(), ["c", 2]], ["v", "lvQ"]])
+        e = ["m", rng.choice(FMTS), a]                                         # computed address
+        if rng.random() < 0.5:
+            e = [rng.choice(RING), e, any_leaf()]
+    elif k == 5:
+        d = rng.choice(regs)
+        e = [rng.choice(RING + STAGE3), any_leaf(), [rng.choice(RING), any_leaf(), ["r", d]]]
+        prog["stmts"] = [["set", [rng.choice(VIEWS), d], e]]                   # destination occurs on the right
+        return prog
+    elif k == 6:
+        prog["owned"] = sorted(set(prog["owned"]) | set(rng.sample(range(10), rng.choice([7, 8, 9]))))
+        e = rand_expr(rng, prog, 3, list(RING), ["neg"])                       # register pressure
+    elif k == 7:
+        e = [rng.choice(["neg", "abs"]), rng.choice([r(), ["w", rng.choice(regs)], any_leaf(), ["neg", r()]])]
+    else:
+        e = [rng.choice(["<<", ">>"]), any_leaf(), ["c", rng.choice([0, 1, 31, 32, 33, 63, 64, -1])]]
+    dk = rng.choice(DEST_KINDS)
+    prog["stmts"] = [["set", pick_dest(rng, prog, dk), e]]
     return prog
